@@ -26,6 +26,7 @@
 /* ---------------- options ---------------- */
 static int opt_trace;		/* emit one trace line per parse (for TLC trace validation) */
 static int opt_sets;		/* install the hook sink and emit SET/HIT/REC events into the trace */
+static int opt_mps;		/* also emit the make_parse walk (MPS events) into the trace */
 static int opt_quiet;
 
 /* ---------------- current grammar (harness side) ---------------- */
@@ -636,6 +637,9 @@ static void sink (const struct yaep_verif_event *ev)
   else if (ev->kind == YAEP_VERIF_REC) n_recs++;
   else if (ev->kind == YAEP_VERIF_MP) { if (ev->a == 1) mp1++; else mp2++; }
   if (!sets_active) return;
+#ifdef YAEP_VERIF_MPS
+  if (ev->kind == YAEP_VERIF_MPS && !opt_mps) return;
+#endif
   snprintf (buf, sizeof buf, "%s{\"k\":%d,\"a\":%d,\"b\":%d,\"c\":%d,\"d\":%d,\"e\":%d,\"f\":%d,\"it\":[", trace_sets.n ? "," : "", ev->kind, ev->a, ev->b, ev->c, ev->d, ev->e, ev->f);
   sb_add (&trace_sets, buf);
   for (i = 0; i < ev->n; i++)
@@ -946,6 +950,7 @@ int main (int argc, char **argv)
     {
       if (strcmp (argv[i], "-t") == 0) opt_trace = 1;
       else if (strcmp (argv[i], "-s") == 0) opt_sets = 1;
+      else if (strcmp (argv[i], "-m") == 0) opt_mps = 1;
       else if (strcmp (argv[i], "-q") == 0) opt_quiet = 1;
     }
   yv_install_handlers ();
